@@ -1,8 +1,8 @@
 #!/bin/bash
 # Runs the quick check of the broken property against every seeded change; writes /verif/seeded/MATRIX.txt
 cd "$(dirname "$0")/.."
-out=seeded/MATRIX.txt; : > $out.tmp
-for d in seeded/C*-*/; do
+out=seeded/MATRIX${2:-}.txt; : > $out.tmp
+for d in seeded/${1:-C*-*}/; do
   id=$(basename $d); prop=${id%%-*}
   line=$(tools/run_mutant.sh $d/patch.diff $prop 2>&1 | grep -v "^#\|^pkg/" | tail -1 | cut -c1-300)
   echo "$id $line" | tee -a $out.tmp
